@@ -506,17 +506,34 @@ class Driven:
 def random_history(rng, n_ops):
     lens = [192, 208, 224, 256, 320]
     pool = [((j + 1) / 32.0, rng.choice(lens)) for j in range(rng.choice([5, 8, 12]))]
+    # a waveform that samples to exactly the idle segment of slot 0 (192 points of 0 V on both channels, no
+    # markers): such a program segment is "known" at slot 0 and shares the idle segment's reference counter
+    idle_wf = None
+    if rng.random() < 0.6:
+        idle_wf = 0
+        pool[0] = (0.0, 192)
+        if len(pool) > 1:
+            pool[1] = (pool[1][0], 192)          # and an ordinary 192-point segment that would fit slot 0
     total = rng.choice([1000, 1300, 1700, 2400, 4000])
     ops = []
     names = rng.choice([2, 3, 4])
     live = set()                      # rough picture of the uploaded names (failed uploads are not tracked)
-    for _ in range(n_ops):
+    if idle_wf is not None and rng.random() < 0.35:
+        # targeted opening: a program sharing slot 0 comes and goes while another one stays, then an
+        # unknown 192-point segment arrives
+        other = rng.sample(range(1, len(pool)), min(3, len(pool) - 1))
+        ops += [['upload', 0, 0, [idle_wf] + other[:1]], ['upload', 1, 0, other[1:2] or other[:1]],
+                [rng.choice(['remove', 'free']), 0], ['upload', 0, 0, [1] + other[2:3]]]
+        live = {0, 1}
+    while len(ops) < n_ops:
         k = rng.random()
         name = rng.randrange(names)
         if live and k >= 0.5 and rng.random() < 0.75:
             name = rng.choice(sorted(live))
         if k < 0.5:
             wfs = rng.sample(range(len(pool)), rng.choice([1, 1, 2, 2, 3, 4]))
+            if idle_wf is not None and idle_wf not in wfs and rng.random() < 0.3:
+                wfs[rng.randrange(len(wfs))] = idle_wf
             force = int(rng.random() < (0.7 if name in live else 0.3))
             ops.append(['upload', name, force, wfs])
             live.add(name)
@@ -589,13 +606,21 @@ def check_histories(ctx, hists, label):
                     what = v[1]
                 else:
                     what = 'instrument-protocol: ' + '; '.join(s['anomalies'][:2])
-                ctx.violation('after operation %d (%s) of the history the driver state breaks the invariant: %s; '
-                              'hashes=%s refs=%s contents=%s programs=%s'
-                              % (j, s['op'], what, s['state'][0], s['state'][3], s['state'][4], s['state'][5]),
-                              dict(hist, judge=what, at=j))
+                damage = 'does-not-hold-its-data' in what
+                if not violated or damage:
+                    ctx.violation('after operation %d (%s) of the history the driver state breaks the invariant: %s; '
+                                  'hashes=%s refs=%s contents=%s programs=%s'
+                                  % (j, s['op'], what, s['state'][0], s['state'][3], s['state'][4], s['state'][5]),
+                                  dict(hist, judge=what, at=j))
+                if not violated:
+                    bad.append(hist)
                 violated = True
-                bad.append(hist)
-                break
+                if damage:
+                    break
+                # a broken reference mark is the precursor: the history is followed further (judge only) up to
+                # the moment at which a program actually points at a slot that does not hold its data
+                drifted = True
+                continue
             if drifted:
                 continue          # the model is no longer followed, the judge still is
             # bookkeeping comparison with the model
@@ -623,6 +648,8 @@ def check_histories(ctx, hists, label):
         if dl and not violated:
             for (case, ans), r in zip(dc, core.Lean.run(dl)):
                 ctx.count('%s:decisions-judged' % label)
+                if ans[0] == 'ok' and 0 in ans[1]:
+                    ctx.count('%s:segment-known-at-idle-slot-0' % label)
                 if r[0] != 'res':
                     raise core.MachineryError('driver: %r' % (r,))
                 if ans[0] == 'ok' and r[2] != 'ok':
